@@ -115,7 +115,8 @@ _SUBS = None
 
 def _expand(task):
     """Worker: expand a batch of frontier programs of one subspace."""
-    sub_i, progs, last_level, sample_rate = task
+    sub_i, progs, last_level, sample_rate, *_rest = task
+    _task_id = _rest[0] if _rest else None
     check = _CHECK
     sub: SubSpace = _SUBS[sub_i]
     scen = sub.world.scenario()
@@ -189,8 +190,9 @@ def _expand(task):
                 if sample_rate and random.random() < sample_rate and len(samples) < 3:
                     check.sample(tr)
     except BaseException as e:  # noqa: BLE001
-        return {"error": f"{type(e).__name__}: {e}\n{traceback.format_exc()}"}
+        return {"error": f"{type(e).__name__}: {e}\n{traceback.format_exc()}", "task": _task_id}
     return {
+        "task": _task_id,
         "sub": sub_i,
         "counters": counters,
         "violations": violations,
@@ -231,6 +233,38 @@ class HarnessError(Exception):
     pass
 
 
+STALL_S = float(os.environ.get("VERIF_STALL_S", "240"))
+
+
+def _stall_violation(sub, root, idxs, where):
+    prog = (root,) + tuple(sub.ops[j] for j in idxs)
+    return {
+        "kind": "library-call-did-not-terminate",
+        "detail": f"no exploration task finished within {STALL_S:.0f} s ({where}); a task normally takes well under a "
+        f"second. An expansion of this state or of one explored alongside it does not return (non-terminating "
+        f"execution, e.g. a row iterable that feeds itself). Exploration stopped here; not exhaustive.",
+        "case": {"sub": sub.label, "program": A.to_jsonable(prog), "stall": True},
+        "program_str": A.fmt_prog(prog) + " ; <any operation>",
+        "finding": None,
+    }
+
+
+def _stalled_result(subs, violations, counters, t0):
+    return {
+        "counters": counters,
+        "violations": violations,
+        "samples": [],
+        "states": 0,
+        "transitions": counters["transitions"],
+        "distinct_outcomes": 0,
+        "distinct_nontrivial": 0,
+        "subspaces": [{"label": s.label, "ops": len(s.ops), "depth_bound": s.depth, "depth_completed": 0, "states": 0} for s in subs],
+        "capped": True,
+        "wall_s": time.time() - t0,
+        "alphabets": {s.label: [A.fmt_op(o) for o in s.ops] for s in subs},
+    }
+
+
 def explore(check: Check, tier: str, seed: int, time_cap: float | None = None):
     """Run the BFS for every subspace of the check.  Returns a result dict."""
     global _CHECK, _SUBS
@@ -251,7 +285,12 @@ def explore(check: Check, tier: str, seed: int, time_cap: float | None = None):
         # determinism self-check: expand the root level of each subspace twice in separate tasks
         for si, sub in enumerate(subs):
             t = (si, [(r, ()) for r in sub.roots], sub.depth <= 1, 0.0)
-            r1, r2 = pool.map(_expand, [t, t])
+            try:
+                r1, r2 = pool.map_async(_expand, [t, t]).get(STALL_S)
+            except mp.TimeoutError:
+                violations.append(_stall_violation(sub, sub.roots[0], (), f"root level of {sub.label}"))
+                pool.terminate()
+                return _stalled_result(subs, violations, counters, t0)
             for r in (r1, r2):
                 if "error" in r:
                     raise HarnessError(r["error"])
@@ -279,9 +318,25 @@ def explore(check: Check, tier: str, seed: int, time_cap: float | None = None):
                 chunk = max(1, min(200, len(fr) // (NWORKERS * 4) + 1))
                 rate = min(1.0, 50.0 / (len(fr) * max(1, len(sub.ops))))
                 for j in range(0, len(fr), chunk):
-                    tasks.append((si, fr[j : j + chunk], last, rate))
+                    tasks.append((si, fr[j : j + chunk], last, rate, len(tasks)))
             nxt = {si: [] for si in frontiers}
-            for res in pool.imap_unordered(_expand, tasks):
+            outstanding = set(range(len(tasks)))
+            results_it = pool.imap_unordered(_expand, tasks)
+            while True:
+                try:
+                    res = results_it.next(STALL_S)
+                except StopIteration:
+                    break
+                except mp.TimeoutError:
+                    # no worker delivered anything for STALL_S seconds (a task normally takes well under a second):
+                    # some library call does not terminate.  Name the first program of up to three unfinished tasks.
+                    for ti in sorted(outstanding)[:3]:
+                        si_, progs_ = tasks[ti][0], tasks[ti][1]
+                        root_, idxs_ = progs_[0]
+                        violations.append(_stall_violation(subs[si_], root_, idxs_, f"level {level}, {len(outstanding)} task(s) unfinished"))
+                    capped = True
+                    break
+                outstanding.discard(res.get("task"))
                 if "error" in res:
                     raise HarnessError(res["error"])
                 si = res["sub"]
@@ -341,6 +396,17 @@ def replay_case(check: Check, case):
     """Re-run the single last transition of a recorded case; returns the violations it raises."""
     global _CHECK
     _CHECK = check
+    if case.get("stall"):
+        # re-executing would hang again; hand the recorded verdict back
+        return [
+            {
+                "kind": "library-call-did-not-terminate",
+                "detail": "recorded stall (not re-executed: the recorded expansion does not terminate)",
+                "case": case,
+                "program_str": A.fmt_prog(A.from_jsonable(case["program"])),
+                "finding": None,
+            }
+        ]
     prog = A.from_jsonable(case["program"])
     sub = None
     for tier in ("quick", "thorough"):
